@@ -97,6 +97,20 @@ type thread struct {
 	done bool
 	quie bool // waiting for quiescence
 	nsel int  // selects performed by this thread
+
+	// rendezvous on unbuffered channels: what this parked thread offers, and what a partner did with it
+	offers  []offer
+	matched bool        // a partner has completed one of the offers
+	mIdx    int         // which offer
+	mVal    interface{} // value received (recv offers)
+}
+
+// offer is one pending operation of a parked thread on an unbuffered channel.
+type offer struct {
+	key  unsafe.Pointer
+	send bool
+	val  interface{} // value to hand over (send offers)
+	idx  int         // select case index (0 for a plain send/recv)
 }
 
 type timer struct {
@@ -675,6 +689,56 @@ func key[C any](ch C) unsafe.Pointer { return *(*unsafe.Pointer)(unsafe.Pointer(
 
 func (s *Sched) isClosed(k unsafe.Pointer) bool { _, ok := s.closed[k]; return ok }
 
+// partner finds a parked thread (lowest id first) that offers the opposite operation on the unbuffered channel k.
+func (s *Sched) partner(self *thread, k unsafe.Pointer, wantSend bool) (*thread, int) {
+	for _, t := range s.threads {
+		if t == self || t.done || t.matched {
+			continue
+		}
+		for i := range t.offers {
+			if t.offers[i].key == k && t.offers[i].send == wantSend {
+				return t, i
+			}
+		}
+	}
+	return nil, -1
+}
+
+// rendezvous performs the calling thread's operation on the unbuffered channel k after it has been scheduled:
+// either a partner already completed it (matched), or a parked partner is completed now, or the channel is closed.
+// Returns (value, ok, closedSend).
+func (s *Sched) rendezvous(t *thread, k unsafe.Pointer, send bool, v interface{}) (interface{}, bool) {
+	defer func() { t.offers, t.matched, t.mVal = nil, false, nil }()
+	if t.matched {
+		return t.mVal, true
+	}
+	if p, i := s.partner(t, k, !send); p != nil {
+		p.matched, p.mIdx = true, i
+		if send {
+			p.mVal = v
+			return nil, true
+		}
+		return p.offers[i].val, true
+	}
+	if s.isClosed(k) {
+		if send {
+			panic("send on closed channel")
+		}
+		return nil, false
+	}
+	Fatal("vs: rendezvous scheduled without a partner (scheduler bug)")
+	return nil, false
+}
+
+func as[T any](v interface{}) T {
+	var z T
+	if v == nil {
+		return z
+	}
+	x, _ := v.(T)
+	return x
+}
+
 func Send[T any](ch chan<- T, v T) {
 	s := S
 	if s == nil {
@@ -684,25 +748,28 @@ func Send[T any](ch chan<- T, v T) {
 	if ch == nil {
 		s.point("send nil-chan", never)
 	}
-	if cap(ch) == 0 {
-		Fatal("vs.Send on an unbuffered channel is not supported (all channels of the instrumented packages are buffered) at " + callerLoc())
-	}
 	k := key(ch)
+	if cap(ch) == 0 {
+		// rendezvous: enabled when a receiver is parked on the channel (or it is closed: the send then panics)
+		t := s.cur
+		t.offers = []offer{{key: k, send: true, val: v}}
+		s.point("send (unbuffered)", func() bool {
+			if t.matched || s.isClosed(k) {
+				return true
+			}
+			p, _ := s.partner(t, k, false)
+			return p != nil
+		})
+		s.rendezvous(t, k, true, v)
+		return
+	}
 	s.point("send", func() bool { return len(ch) < cap(ch) || s.isClosed(k) })
 	ch <- v
 }
 
 func Recv[T any](ch <-chan T) T {
-	s := S
-	if s == nil {
-		return <-ch
-	}
-	if ch == nil {
-		s.point("recv nil-chan", never)
-	}
-	k := key(ch)
-	s.point("recv", func() bool { return len(ch) > 0 || s.isClosed(k) })
-	return <-ch
+	v, _ := Recv2(ch)
+	return v
 }
 
 func Recv2[T any](ch <-chan T) (T, bool) {
@@ -715,6 +782,19 @@ func Recv2[T any](ch <-chan T) (T, bool) {
 		s.point("recv nil-chan", never)
 	}
 	k := key(ch)
+	if cap(ch) == 0 {
+		t := s.cur
+		t.offers = []offer{{key: k, send: false}}
+		s.point("recv (unbuffered)", func() bool {
+			if t.matched || s.isClosed(k) {
+				return true
+			}
+			p, _ := s.partner(t, k, true)
+			return p != nil
+		})
+		v, ok := s.rendezvous(t, k, false, nil)
+		return as[T](v), ok
+	}
 	s.point("recv", func() bool { return len(ch) > 0 || s.isClosed(k) })
 	v, ok := <-ch
 	return v, ok
@@ -770,6 +850,9 @@ type Val struct {
 type Case struct {
 	send  bool
 	isNil bool
+	unbuf bool           // unbuffered channel: rendezvous
+	key   unsafe.Pointer //
+	val   interface{}    // value of a send case on an unbuffered channel
 	ready func(s *Sched) bool
 	do    func() Val
 	rv    reflect.Value // pass-through mode
@@ -784,6 +867,9 @@ func R[T any](ch <-chan T) Case {
 		return Case{isNil: true}
 	}
 	k := key(ch)
+	if cap(ch) == 0 {
+		return Case{unbuf: true, key: k}
+	}
 	return Case{
 		ready: func(s *Sched) bool { return len(ch) > 0 || s.isClosed(k) },
 		do:    func() Val { v, ok := <-ch; return Val{V: v, OK: ok} },
@@ -797,10 +883,10 @@ func Snd[T any](ch chan<- T, v T) Case {
 	if ch == nil {
 		return Case{isNil: true, send: true}
 	}
-	if cap(ch) == 0 {
-		Fatal("vs.Select send on an unbuffered channel is not supported at " + callerLoc())
-	}
 	k := key(ch)
+	if cap(ch) == 0 {
+		return Case{send: true, unbuf: true, key: k, val: v}
+	}
 	return Case{
 		send:  true,
 		ready: func(s *Sched) bool { return len(ch) < cap(ch) || s.isClosed(k) },
@@ -836,9 +922,27 @@ func doSelect(hasDefault, prio bool, cases []Case) (int, Val) {
 	if s == nil {
 		return freeSelect(hasDefault, prio, cases)
 	}
+	t := s.cur
+	caseReady := func(i int) bool {
+		c := &cases[i]
+		if c.isNil {
+			return false
+		}
+		if c.unbuf {
+			if s.isClosed(c.key) {
+				return true
+			}
+			p, _ := s.partner(t, c.key, !c.send)
+			return p != nil
+		}
+		return c.ready(s)
+	}
 	anyReady := func() bool {
+		if t.matched {
+			return true
+		}
 		for i := range cases {
-			if !cases[i].isNil && cases[i].ready(s) {
+			if caseReady(i) {
 				return true
 			}
 		}
@@ -847,17 +951,35 @@ func doSelect(hasDefault, prio bool, cases []Case) (int, Val) {
 	if hasDefault {
 		s.point("select(default)", always)
 	} else {
+		// while parked, the unbuffered cases are offers other threads can complete
+		t.offers = t.offers[:0]
+		for i := range cases {
+			if cases[i].unbuf && !cases[i].isNil {
+				t.offers = append(t.offers, offer{key: cases[i].key, send: cases[i].send, val: cases[i].val, idx: i})
+			}
+		}
 		s.point("select", anyReady)
 	}
 	s.cur.nsel++
+	if t.matched {
+		// a partner completed one of the unbuffered cases while this thread was parked
+		i := t.offers[t.mIdx].idx
+		v := t.mVal
+		t.offers, t.matched, t.mVal = nil, false, nil
+		if cases[i].send {
+			return i, Val{}
+		}
+		return i, Val{V: v, OK: true}
+	}
 	var ready [8]int
 	rd := ready[:0]
 	for i := range cases {
-		if !cases[i].isNil && cases[i].ready(s) {
+		if caseReady(i) {
 			rd = append(rd, i)
 		}
 	}
 	if len(rd) == 0 {
+		t.offers = nil
 		return -1, Val{}
 	}
 	k := 0
@@ -882,6 +1004,17 @@ func doSelect(hasDefault, prio bool, cases []Case) (int, Val) {
 		}
 	}
 	i := rd[k]
+	if cases[i].unbuf {
+		own := t.offers
+		t.offers = nil // the other offers are withdrawn
+		_ = own
+		v, ok := s.rendezvous(t, cases[i].key, cases[i].send, cases[i].val)
+		if cases[i].send {
+			return i, Val{}
+		}
+		return i, Val{V: v, OK: ok}
+	}
+	t.offers = nil
 	return i, cases[i].do()
 }
 
